@@ -137,7 +137,7 @@ impl Property for C16 {
         out
     }
     fn check(&self, case: &Case, st: &mut Stats) -> CheckResult {
-        let layers_rt = match guard(|| prepare_layers(&case.layers)) {
+        let layers_rt = match guard(|| prepare_layers(&case.layers, false)) {
             Ok(Ok(l)) => l,
             Ok(Err(_)) => {
                 st.count("layer_not_built");
